@@ -41,7 +41,7 @@ def build(rng, name):
         else:
             tot = sum(Fraction(x) for x in ds[d]); mag = sum(abs(Fraction(x)) for x in ds[d])
             def mk(tot, mag, n):
-                return lambda a, env: None if abs(Fraction(h2f(a[1:])) - tot) <= Fraction(4, 2 ** 53) * mag + Fraction(4 * n + 4, 2 ** 1074) else "sum %s differs from the exact sum %s beyond rounding" % (a, float(tot))
+                return lambda a, env: None if abs(Fraction(h2f(a[1:])) - tot) <= Fraction(9, 2 ** 53) * mag + Fraction(4 * n + 4, 2 ** 1074) else "sum %s differs from the exact sum %s beyond rounding" % (a, float(tot))
             b.emit("dsum " + d, mk(tot, mag, len(ds[d])))
     for _ in range(rng.randint(3, 40)):
         op = rng.choice(["add"] * 6 + ["adds", "query", "query", "query", "merge", "selfmerge"])
